@@ -216,7 +216,17 @@ Section HtpasswdStatements.
     snd (hlogin ext_verify cfg st (present t sz mt) l pw) = LRaise ->
     exists s h, s <> SPlain /\ ext_verify s h pw = VRaise.
   Proof. exact (c05_htpasswd_no_crash ext_verify). Qed.
+  (* A file that cannot be opened (EACCES, EIO, a directory in its place; os.stat still works) authenticates NOBODY:
+     at once with the cache off, and with the cache on as soon as the stamp shows a change (the cached dict is then empty) --
+     never "the last known content". *)
+  Theorem C05_htpasswd_unreadable : forall cfg st sz mt l pw,
+    let f := {| f_text := FUnreadable; f_size := sz; f_mtime := mt |} in
+    (h_cache cfg = false \/ stamp_differs st f = true) ->
+    snd (hlogin ext_verify cfg st f l pw) = LFail /\
+    (h_cache cfg = true -> h_tab (fst (hlogin ext_verify cfg st f l pw)) = []).
+  Proof. exact (c05_htpasswd_unreadable ext_verify). Qed.
 End HtpasswdStatements.
+Print Assumptions C05_htpasswd_unreadable.
 Print Assumptions C05_htpasswd_entry.
 Print Assumptions C05_htpasswd.
 Print Assumptions C05_htpasswd_cache.
